@@ -339,6 +339,35 @@ func init() {
 					roundTripBig(c, msg, rm, fmt.Sprintf("%s with %d elements nested=%v", s.k, s.n, s.nested))
 					c.Case(0, true, "size")
 				}})
+			// bit / byte-lane / boundary / seed-derived values of the 4- and 8-byte formats (the C02 value axis), through routes 0 and 3
+			for _, k := range []ref.Kind{ref.I4, ref.U4, ref.I8, ref.U8, ref.F8} {
+				k := k
+				extra := 500
+				if tier == "thorough" {
+					extra = 50000
+				}
+				ax := newWideAxis(k, seed, extra)
+				sp = append(sp, h.Space{Name: "wide-values-" + k.String(), Count: uint64(len(ax.vals)),
+					Describe: func(i uint64) interface{} { return fmt.Sprintf("%s bits %x", k, ax.vals[i]) },
+					Run: func(c *h.Ctx, i uint64) {
+						n, ok := ax.node(ax.vals[i])
+						if !ok {
+							c.Case(0, false, "non-finite")
+							return
+						}
+						n.Elems = append(n.Elems, n.Elems[0], ref.Elem{I: 1, U: 1, F: 1})
+						rm := &ref.Msg{Stream: 2, Function: 1, W: 0, Dir: "H<->E", Session: 3, System: [4]byte{4, 3, 2, 1}, Item: ref.List(n, ref.Ascii("x"))}
+						for _, r := range []int{0, 3} {
+							msg, e := buildRoute(r, rm)
+							if msg == nil {
+								c.Fail("route-failed:"+rootClass(rm), ref.PrintMsg(rm), e)
+								continue
+							}
+							roundTrip(c, routeNames[r], msg, rm)
+						}
+						c.Case(h.Digest([]byte(k.String()), []byte(fmt.Sprint(ax.vals[i]))), true, "wide:"+k.String())
+					}})
+			}
 			// messages whose text is longer than one maximal item (the 16,777,215-byte limit is per item, not per message)
 			type bigMsg struct {
 				desc string
